@@ -237,6 +237,9 @@ FamOps(f) ==
     [] f = "mountbad" -> {o \in {UpPostOp(r, "", "", d, f2, NoChunk) : r \in GR, d \in BlobDigs,
                                  f2 \in {"raw:../victim", "raw:../../victim", "raw:proj/../../victim", "raw:/victim"}} : o.mount \notin blob[o.repo]}
     [] f = "gcrefs"   -> {[op |-> "GC", repo |-> r] : r \in {x \in GR : G5(x)}}
+    \* a collection in the states where the referrer switches matter: a referrer whose subject is held only as a blob,
+    \* or is not held at all
+    [] f = "gcsubj"   -> {[op |-> "GC", repo |-> r] : r \in {x \in GR : G5(x) /\ \E a \in ManSet(x) : IsArt(a) /\ SubjectOf(a) \notin DOMAIN man[x]}}
     [] f = "gcpass"   -> {[op |-> "GCPass"]}
     [] f = "mkcorrupt" -> {[op |-> "MkCorrupt", repo |-> "raw:zzz/broken", which |-> w] : w \in {"corrupt", "phantom", "removed"}}
     [] OTHER -> {}
@@ -252,7 +255,7 @@ Weights ==
                                "manputmiss", "manputmiss", "manputmiss", "mandel", "mandel", "blobdel", "blobdel", "pushmanblob">>
     [] Profile = "refs" -> <<"pushblob", "pushblob", "manput", "manput", "manput", "manput", "mandel", "mandel", "restart">>
     [] Profile = "gc" -> <<"pushblob", "pushblob", "repushblob", "manput", "manput", "manput", "manput", "manput", "mandel", "mandel",
-                           "blobdel", "gc", "gc", "gc", "age", "age">>
+                           "blobdel", "gc", "gc", "gcsubj", "gcsubj", "gcsubj", "age", "age", "restart", "restart", "pushmanblob">>
     [] Profile = "layout" -> <<"pushblob", "pushblob", "manput", "manput", "manput", "manput", "mandel", "mandel", "blobdel",
                                "gc", "gc", "age", "restart", "restart", "uppost", "uppatch", "upput", "updel">>
     [] Profile = "ro" -> <<"pushblob", "pushblob", "manput", "manput", "manput", "mandel", "reconf", "reconf",
@@ -261,7 +264,7 @@ Weights ==
     [] Profile = "iso" -> <<"pushblob", "pushblob", "manput", "manput", "manput", "mandel", "uppost", "uppost", "uppatch",
                             "upput", "sessbad", "mountbad", "mountbad", "restart", "gc", "blobdel">>
     [] Profile = "gcrefs" -> <<"pushblob", "pushblob", "manput", "manput", "manput", "manput", "manput", "mandel", "mandel",
-                               "gcrefs", "gcrefs", "age">>
+                               "gcrefs", "gcsubj", "gcsubj", "gcsubj", "age", "pushmanblob", "pushmanblob", "restart">>
     [] Profile = "gcpass" -> <<"pushblob", "pushblob", "manput", "manput", "manput", "manput", "mandel", "blobdel",
                                "gcpass", "gcpass", "age", "age", "mkcorrupt">>
     [] Profile = "sess" -> <<"uppost", "uppost", "uppatch", "uppatch", "uppatch", "upput", "upput", "sessbad", "sessbad",
